@@ -402,7 +402,7 @@ def eq_value(a, b):
     if al and bl:
         if isinstance(a, str) and isinstance(b, str):
             return a == b
-        return _sb(label_term(a) == label_term(b))
+        return _sb(_label_eq(label_term(a), label_term(b)))
     if (an and bl) or (al and bn):
         return False
     if isinstance(a, (tuple, list)) and isinstance(b, (tuple, list)):
@@ -434,7 +434,8 @@ def eq_value(a, b):
             return s_and(*[s_or(*[eq_value(x, y) for y in q.elems]) for x in p.elems])
         return s_and(subset(a, b), subset(b, a))
     from .abstract import AList, abstract_eq
-    if isinstance(a, AList) or isinstance(b, AList):
+    from .seq import ASet, ADict
+    if isinstance(a, (AList, ASet, ADict)) or isinstance(b, (AList, ASet, ADict)):
         return abstract_eq(a, b)
     from .values import AbstractCall
     if isinstance(a, AbstractCall) or isinstance(b, AbstractCall):
@@ -447,6 +448,22 @@ def eq_value(a, b):
     if type(a) != type(b):
         return False
     return a is b
+
+
+def _is_str_const(t):
+    return z3.is_const(t) and t.decl().kind() == z3.Z3_OP_UNINTERPRETED and t.decl().name().startswith('str:')
+
+
+def _label_eq(s, t, depth=0):
+    """Equality of label terms; conditionals over concrete strings are resolved (distinct concrete strings are different)."""
+    if _is_str_const(s) and _is_str_const(t):
+        return z3.BoolVal(s.decl().name() == t.decl().name())
+    if depth < 40:
+        if z3.is_app_of(s, z3.Z3_OP_ITE) and (_is_str_const(t) or z3.is_app_of(t, z3.Z3_OP_ITE)):
+            return z3.simplify(z3.If(s.arg(0), _label_eq(s.arg(1), t, depth + 1), _label_eq(s.arg(2), t, depth + 1)))
+        if z3.is_app_of(t, z3.Z3_OP_ITE) and _is_str_const(s):
+            return z3.simplify(z3.If(t.arg(0), _label_eq(s, t.arg(1), depth + 1), _label_eq(s, t.arg(2), depth + 1)))
+    return s == t
 
 
 def _sb(t):
@@ -478,7 +495,8 @@ def truth(v) -> bool:
     if isinstance(v, SLabel):
         raise OutOfSubset('truthiness of symbolic string')
     from .abstract import AList
-    if isinstance(v, AList):
+    from .seq import ASet, ADict
+    if isinstance(v, (AList, ASet, ADict)):
         return CTX.path.branch(v.length > 0)
     if isinstance(v, Opaque):
         raise OutOfSubset('truthiness of opaque value')
